@@ -378,7 +378,10 @@ def make_cmp(stats):
                 num, den = rat.split("/")
                 r = Fraction(int(num), int(den))
                 fx = Fraction(x)
-                if abs(r) < Fraction(1, 10 ** 290) or abs(r) > 10 ** 290:
+                if r == 0:
+                    if fx != 0:
+                        return False
+                elif abs(r) < Fraction(1, 10 ** 290) or abs(r) > 10 ** 290:
                     stats.out_of_range += 1      # the double result under/overflows: outside exact-arithmetic reach
                 elif r != fx:
                     m = max(abs(r), abs(fx))
